@@ -22,7 +22,13 @@ def run_prop(pid, tier, seed, facts=None, facts_path=None):
             ctx.guarded(rule.__name__, rule.__module__, lambda: rule(ctx))
         import thorough
         extra = thorough.run(ctx, spec)
-    return core.finish(ctx, spec['level'], spec['explanation'], spec['trusted_base'], spec['assumptions'], t0, extra)
+        ctx.tier = 'thorough'
+    rc = core.finish(ctx, spec['level'], spec['explanation'], spec['trusted_base'], spec['assumptions'], t0, extra)
+    st = getattr(ctx, 'selftest_failed', None)
+    if st and rc == 0:
+        print(f'CHECKER-SELFTEST-FAILED property={pid} missed={st["MISSED"]} false_alarms={st["FALSE-ALARM"]}')
+        return 3
+    return rc
 
 
 def main():
